@@ -261,6 +261,13 @@ def register(chk):
                                     ob_hidden, l, pattern, hslot, step, shape, omit_all)
 
 
+def include_in(chk):
+    """this check's obligations registered inside another check (framework.Check.include): encrypt and decrypt run on parameters, keys, lists and
+    ciphertexts of exactly the documented sizes with every access checked, so they are memory-safety obligations for valid calls as well"""
+    wkd.prog()
+    register(chk)
+
+
 def main(argv=None):
     chk = Check("C12", "proof", argv)
     wkd.prog()
